@@ -248,6 +248,9 @@ func (s *seqState) stepOnce() {
 	switch kind {
 	case "head", "tail":
 		c := r.Range(0, n+1)
+		if n > 2048 && r.Chance(60) {
+			c = r.Range(2049, n)
+		}
 		if bad || (s.mode == "c08" && r.Chance(40)) {
 			c = r.BoundaryInt(n)
 		}
@@ -328,6 +331,12 @@ func (s *seqState) stepOnce() {
 			rows[i] = r.Range(0, max(n-1, 0))
 			if bad && r.Chance(30) {
 				rows[i] = r.BoundaryInt(n)
+			}
+		}
+		if nr >= 2 && n >= nr && r.Chance(25) {
+			st := r.Intn(n - nr + 1) // a consecutive run of row positions
+			for i := range rows {
+				rows[i] = st + i
 			}
 		}
 		for i := range cols {
@@ -816,7 +825,11 @@ func genSeq(r *Rng, mode string, steps int) *Enc {
 			{"a", "b", nil}, {0.5, 1.5, float32(0.5), nil, 2},
 			{16777216.0, 16777217.0, 0.1, 0.1000000001, float32(0.1), nil, 1e-320},
 		}
-		for _, c := range []string{"a", "b", "c"}[:r.Range(1, 3)] {
+		c07names := []string{"a", "b", "c"}
+		if r.Chance(12) {
+			c07names = []string{"index", "b", "c"} // "index" is an ordinary column for DropDuplicates
+		}
+		for _, c := range c07names[:r.Range(1, 3)] {
 			alpha := Pick(r, colAlpha)
 			alpha = alpha[:r.Range(2, len(alpha))]
 			d := make([]any, n)
@@ -826,7 +839,7 @@ func genSeq(r *Rng, mode string, steps int) *Enc {
 			df.Columns[c] = &dataframe.Column[any]{Name: c, Data: d}
 		}
 		s.pool = []*DF{df}
-		s.names = []string{"a", "b", "c", "zz"}
+		s.names = []string{"a", "b", "c", "zz", "index"}
 	case "c08":
 		s.kinds = []string{"head", "tail", "rowslice", "filter", "iloc", "loc", "multiselect", "droprow", "dropcol", "qrow", "qnames", "qshape"}
 		steps = r.Range(1, 4)
@@ -864,6 +877,7 @@ func genSeq(r *Rng, mode string, steps int) *Enc {
 				fam := Pick(r, [][]string{
 					{"2020-01-02", "1999-12-31", "2021-02-30", "2020-01-02 03:04:05", "x"},
 					{"2020-01-02", "1999-12-31", "2024-02-29"},
+					{"2020-01-02", "1999-12-31", "2021-02-30", "2023-04-31", "2023-02-29"},
 					{"2020-01-02 03:04:05", "1999-12-31 23:59:59"},
 					{"2024-02-29T12:30:00Z", "2024-02-29T12:30:00+02:00", "1999-12-31T23:59:59Z"},
 					{"May 5, 2024", "September 15, 2023", "January 2, 2006"},
@@ -897,7 +911,7 @@ func genSeq(r *Rng, mode string, steps int) *Enc {
 		s.kinds = []string{"shift", "shift", "shift", "setcell", "fillna", "droprow"}
 		steps = r.Range(1, 5)
 		s.pool = []*DF{r.Frame(r.SmallN()+r.Intn(4), r.Range(0, 3), names)}
-		if r.Intn(250) == 0 {
+		if r.Intn(120) == 0 {
 			// a long single-column frame beyond typical parallelisation thresholds (4096, 16384), length not a multiple of 8
 			n := Pick(r, []int{4096, 16384}) + 1 + 2*r.Intn(10)
 			d := make([]any, n)
@@ -944,7 +958,7 @@ func genSeq(r *Rng, mode string, steps int) *Enc {
 	}
 	// rare large or wide frames, with the operations whose implementation might treat them differently
 	switch {
-	case mode == "c02" && r.Intn(60) == 0:
+	case mode == "c02" && r.Intn(35) == 0:
 		s.pool = []*DF{bigFrame(r, Pick(r, []int{2100, 2500, 3000}), r.Range(1, 2))}
 		s.kinds = []string{"head", "tail", "head", "tail", "rowslice", "setcell", "fillna", "droprow", "shift"}
 		steps = r.Range(3, 4)
@@ -952,7 +966,7 @@ func genSeq(r *Rng, mode string, steps int) *Enc {
 		s.pool = []*DF{bigFrame(r, Pick(r, []int{513, 515, 1021, 1027}), r.Range(1, 3))}
 		s.kinds = []string{"filter", "filter", "head", "tail", "rowslice", "iloc", "droprow"}
 		steps = r.Range(1, 2)
-	case mode == "c07" && r.Intn(40) == 0:
+	case mode == "c07" && r.Intn(20) == 0:
 		// one class of many identical rows (a counter of small width would wrap), plus a few other rows
 		n := Pick(r, []int{257, 513, 258, 300})
 		df := dataframe.NewDataFrame()
